@@ -112,6 +112,7 @@ LongAnn == "%aaaaaaaaaaaaaaaaaaaaaaaaaaaaaaaaaaaaaaaaaaaaaaaaaaaaaaaaaaaaaaaa"
 T0 == {Pr(n, <<>>, an) : n \in LeafTypes, an \in TAnn}
 T0s == {int, Pr("chest", <<>>, <<":t">>), Pr("chest_key", <<>>, <<"%f", ":t_1">>), Pr("tx_rollup_l2_address", <<>>, <<"%f">>),
         Pr("never", <<>>, <<":t">>), Pr("unit", <<>>, <<LongAnn>>)}
+       \cup (IF Level >= 2 THEN {Pr(n, <<>>, <<":t">>) : n \in LeafTypes} ELSE {})
 T0p == {int, Pr("chest", <<>>, <<":t">>)}
 T1 == {Pr("pair", <<a, b>>, an) : a \in T0s, b \in T0s, an \in {<<>>, <<"%f", ":t_1">>}}
       \cup {Pr(n, <<a>>, an) : n \in {"option", "list", "set", "contract", "ticket"}, a \in T0s, an \in {<<>>, <<":t">>}}
